@@ -29,7 +29,6 @@ def run(prog, chk, tier):
     from rules import walk_e2 as W
     W.ending_automaton(prog, chk, depth=4 if tier == "quick" else 5)
     e2_clauses(prog, chk)
-    header_table(prog, chk)
     tiling(prog, chk)
     offsets(prog, chk, rule="faithful-exposure")
     lookups(prog, chk)
